@@ -5,8 +5,12 @@ UrwidImageScreen writing to a buffer (harness/impl/impl_c18.py): generated seque
 layouts (Pile / Columns / Overlay / ListBox scrolling / LineBox / Filler / the image widget
 or a SolidFill as the top-most widget), any mix of kitty, iterm2 and block image widgets
 (the same widget possibly several times on screen), widget construction and garbage
-collection in between, redraws of the same canvas, clear(), stop()/start(), a redraw whose
-inner draw raises; terminal identity kitty / konsole / other.  Every step's output is lexed
+collection in between, redraws of the same canvas, clear(), a redraw whose inner draw raises;
+terminal identity kitty / konsole / other; and EVERY WAY THE SCREEN IS STARTED: with the
+alternate buffer or without it (urwid's inline mode), repeated stop()/start() cycles changing
+the mode, a new screen object for a new cycle, on a terminal that already holds image
+placements (printed by an earlier command / by the application before start() or between two
+sessions).  Every step's output is lexed
 (harness/c18lex.py, fail-closed) and executed on the placement-level terminal INSIDE Coq
 (model/ScreenTie.v) and compared with (a) the model, (b) the specification computed from
 the canvas just drawn (its rows, read back through canvas.content(), written on an empty
@@ -36,7 +40,8 @@ SPEC_REASON = {1: "an exception escaped a legitimate redraw", 2: "redraw output 
                5: "an image line of the canvas just drawn is NOT on the terminal (deleted and not written again)",
                6: "the z-indexes of the live kitty widgets (of all widget classes) are not pairwise distinct / non-zero / in range, "
                   "or a live widget's index was freed",
-               7: "image placements left on the terminal after start / stop / clear"}
+               7: "image placements left on the terminal after start / stop / clear (start, clear: on the screen buffer the user sees; "
+                  "stop: on the buffer the screen ran on)"}
 
 # ------------------------------------------------------------------ generator
 
@@ -182,6 +187,38 @@ def mutate(rng, gen: Gen, L):
     return L
 
 
+PRE_Z = [0, 0, 0, 1, -1, 2, 7, 2**31 - 1]
+
+
+def gen_pre(rng: random.Random, term: str, cols: int, rows: int):
+    """what is on the terminal before the screen is started: kitty placements anywhere on the area
+    the screen will use (and below it), images printed at the cursor by the library itself (LINES or
+    WHOLE render method, any z-index; iterm2 images on Konsole), text"""
+    items = []
+    for _ in range(rng.randint(1, 3)):
+        c = rng.random()
+        if c < 0.45:
+            items.append(["raw", rng.randrange(rows + 3), rng.randrange(cols), rng.randint(1, 8), rng.randint(1, 3),
+                          rng.choice(PRE_Z)])
+        elif c < 0.9:
+            width = rng.randint(2, 10)
+            if term == "konsole" and rng.random() < 0.5:
+                items.append(["image", "iterm2", rng.randrange(6), width, rng.choice(["1.1+L", "1.1+W"])])
+            else:
+                items.append(["image", "kitty", rng.randrange(6), width,
+                              rng.choice(["1.1", "1.1+L", "1.1+W", "1.1+Lz1", "1.1+Lz-2", f"{width + 3}.1+L"])])
+        else:
+            items.append(["text", rng.choice(["$ ls\nfile\n", "$ python app.py\n", "\n\n"])])
+    if not any(it[0] in ("raw", "image") for it in items):
+        items.append(["raw", rng.randrange(rows), rng.randrange(cols), 4, 1, 0])
+    return {"op": "pre", "items": items}
+
+
+def gen_start(rng: random.Random):
+    # urwid's default (MainLoop) is the alternate buffer; alternate_buffer=False is its inline mode
+    return {"op": "start", "alt": rng.random() < 0.6}
+
+
 def gen_case(rng: random.Random, idx: int, quick: bool):
     term = ["kitty", "konsole", "other"][idx % 3]
     cols, rows = rng.choice([(20, 10), (24, 8), (30, 12), (16, 6)])
@@ -203,7 +240,11 @@ def gen_case(rng: random.Random, idx: int, quick: bool):
     if idx % 11 == 10:
         z_start = rng.choice([2**31 - 1, -(2**31 - 1), 2**31 - 2, 2**31])
     gen = Gen(rng, names, (cols, rows))
-    steps = [{"op": "start"}]
+    steps = []
+    if ksup and rng.random() < 0.5:
+        steps.append(gen_pre(rng, term, cols, rows))
+    steps.append(gen_start(rng))
+    mode = steps[-1]["alt"]
     layout = gen.box(rng.randint(1, 3), cols, rows)
     steps.append({"op": "draw", "layout": layout})
     for _ in range(rng.randint(3, 7 if quick else 10)):
@@ -225,12 +266,29 @@ def gen_case(rng: random.Random, idx: int, quick: bool):
             steps.append({"op": "api", "slots": rng.sample(names, min(k, len(names))), "now": rng.random() < 0.5})
             if rng.random() < 0.3:
                 layout = mutate(rng, gen, layout)
+            if layout[0] == "img":
+                # the image widget itself on top: its cached canvas would be the very object drawn last (not a
+                # redraw: urwid returns early); a one-item Pile paints the same screen with a new canvas object
+                layout = ["pile", [[["weight", 1], layout]]]
             steps.append({"op": "draw", "layout": layout})
         elif c < 0.79:
             steps.append({"op": "clear"})
             steps.append({"op": rng.choice(["redraw", "draw"]), "layout": layout})
         elif c < 0.83:
-            steps += [{"op": "stop"}, {"op": "start"}, {"op": "draw", "layout": layout}]
+            # another session: possibly after other output on the terminal, possibly as a new screen
+            # object, started with or without the alternate buffer
+            steps.append({"op": "stop"})
+            if ksup and rng.random() < 0.6:
+                steps.append(gen_pre(rng, term, cols, rows))
+            fresh = rng.random() < 0.25
+            if fresh:
+                steps.append({"op": "newscreen"})
+            steps.append(gen_start(rng))
+            # the first redraw of the new session: a new canvas, or (same screen object, same mode) the very
+            # canvas object drawn last in the previous session
+            again = not fresh and steps[-1]["alt"] == mode and rng.random() < 0.3
+            mode = steps[-1]["alt"]
+            steps.append({"op": "redraw"} if again else {"op": "draw", "layout": layout})
         elif c < 0.90:
             nme = rng.choice(names)
             steps.append({"op": "new", "slot": nme,
@@ -256,7 +314,6 @@ def gen_case(rng: random.Random, idx: int, quick: bool):
     case = {"term": term, "ksup": ksup, "size": [cols, rows], "z_start": z_start, "slots": slots, "steps": steps}
     assert in_domain(case), case
     return case
-    return {"term": term, "ksup": ksup, "size": [cols, rows], "z_start": z_start, "slots": slots, "steps": steps}
 
 
 # boundary sessions that run first (committed corpus)
@@ -265,7 +322,7 @@ def corpus():
     K0 = {"kind": "kitty", "img": 0, "upscale": True}
     I = {"kind": "iterm2", "img": 3, "upscale": True}
     B = {"kind": "block", "img": 4, "upscale": True}
-    S, E = {"op": "start"}, {"op": "stop"}
+    S, E = {"op": "start", "alt": True}, {"op": "stop"}
 
     def d(L):
         return {"op": "draw", "layout": L}
@@ -362,6 +419,34 @@ def corpus():
                                 d(["cols", [[["weight", 1], ["img", "a"]], [["weight", 1], ["fill", "."]]]]),
                                 {"op": "del", "slot": "a"}, d(["fill", "."]), {"op": "new", "slot": "d", "spec": K0},
                                 {"op": "new", "slot": "e", "spec": K0}, E]})
+    # every way the screen is started: without the alternate buffer (urwid's inline mode) on a
+    # terminal that already shows images (placed at the top left, printed by the library with the
+    # LINES and the WHOLE method), clear() + redraw, a second session with the alternate buffer after
+    # more output, a third one inline again; a new screen object; another full-screen program's
+    # alternate buffer; clear() + redraw of the same canvas object, then a move, inline
+    def st(alt):
+        return {"op": "start", "alt": alt}
+
+    def pre(*items):
+        return {"op": "pre", "items": [list(i) for i in items]}
+    for term in ("kitty", "konsole", "other"):
+        base = {"term": term, "ksup": True, "size": [20, 10], "z_start": None}
+        lay = ["pile", [["pack", ["text", "t"]], ["pack", ["img", "a"]], [["weight", 1], ["fill", "."]]]]
+        lay2 = ["pile", [["pack", ["text", "t\nu"]], ["pack", ["img", "a"]], [["weight", 1], ["fill", "."]]]]
+        im2 = ["image", "iterm2" if term == "konsole" else "kitty", 3, 8, "1.1+W"]
+        cases.append(dict(base, slots={"a": K}, steps=[
+            pre(("raw", 0, 0, 6, 1, 0), ("image", "kitty", 0, 6, "1.1"), ("text", "$ python app.py\n")),
+            st(False), d(lay), {"op": "clear"}, {"op": "redraw"}, d(lay2), E,
+            pre(im2, ("raw", 2, 3, 4, 2, 1)), st(True), d(lay), d(lay2), E,
+            st(False), d(lay2), d(lay), E]))
+        if term != "other":
+            cases.append(dict(base, slots={"a": K0}, steps=[
+                st(True), d(lay), E, pre(("image", "kitty", 2, 5, "1.1+Lz1"), ("raw", 1, 0, 20, 3, -1)), {"op": "newscreen"},
+                st(False), d(lay), d(lay2), E, {"op": "newscreen"}, pre(("raw", 0, 0, 3, 1, 2**31 - 1)), st(True), d(lay2), E]))
+        if term == "kitty":
+            cases.append(dict(base, slots={"a": K}, steps=[
+                pre(("alt", True), ("raw", 1, 1, 5, 2, 0), ("alt", False), ("raw", 4, 2, 5, 1, 3)),
+                st(True), d(lay), E, st(False), d(["img", "a"]), {"op": "clear"}, {"op": "redraw"}, d(ov(3)), d(ov(3, 1)), E]))
     # kitty protocol unsupported: nothing is written
     cases.append({"term": "other", "ksup": False, "size": [16, 6], "z_start": None, "slots": {"a": B},
                   "steps": [S, d(["img", "a"]), d(["fill", "."]), {"op": "clear"}, {"op": "redraw"}, E]})
@@ -395,6 +480,7 @@ class Encoder:
         self.canvs = {}     # canvas id -> ref
         ns = len(case.get("slots", {}))
         self.now = {ns + j: bool(st.get("now")) for j, st in enumerate(case["steps"]) if st["op"] == "api"}
+        self.alt = {ns + j: bool(st.get("alt", True)) for j, st in enumerate(case["steps"]) if st["op"] == "start"}
         self.lex_errors = []
 
     def toks(self, s, what):
@@ -403,6 +489,14 @@ class Encoder:
         except c18lex.LexError as e:
             self.lex_errors.append(f"{what}: {e}")
             return "[]"
+
+    def btoks(self, s, what):
+        """what was written to the terminal: tokens of the two-buffer terminal"""
+        try:
+            return c18lex.coq_btoks(c18lex.lex(s))
+        except c18lex.LexError as e:
+            self.lex_errors.append(f"{what}: {e}")
+            return "(bts [])"
 
     def note_canvs(self, lay):
         if lay.get("composite"):
@@ -446,9 +540,15 @@ class Encoder:
                 layout = "[]"
             truth = core.coq_list(r.get("rows", []), lambda row: self.toks(row, f"step {i} canvas row"))
             return (f"(XDraw {canvas} {layout} {b(op == 'draw_bad')} {b('exc' in r)} "
-                    f"{self.toks(r['out'], f'step {i} output')} {truth})")
-        if op in ("clear", "start", "stop"):
-            return f"(X{op.capitalize()} {self.toks(r['out'], f'step {i} output')})"
+                    f"{self.btoks(r['out'], f'step {i} output')} {truth})")
+        if op == "start":
+            return f"(XStart {b(self.alt[i])} {self.btoks(r['out'], f'step {i} output')})"
+        if op in ("clear", "stop"):
+            return f"(X{op.capitalize()} {self.btoks(r['out'], f'step {i} output')})"
+        if op == "pre":
+            return f"(XPre {self.btoks(r['out'], f'step {i} earlier output')})"
+        if op == "newscreen":
+            return "XNewScreen"
         if op == "api":
             if r.get("api_skipped"):
                 return "XDel"
@@ -458,8 +558,8 @@ class Encoder:
                     return f"({e[0]}, WKitty {core.z(e[2])})"
                 return f"({e[0]}, {'WIterm' if e[1] == 'iterm2' else 'WText'})"
             return (f"(XApi {core.coq_list(r['api'], wk)} {b(self.now[i])} "
-                    f"{self.toks(r.get('tty', ''), f'step {i} terminal-device output')} "
-                    f"{self.toks(r['out'], f'step {i} output')})")
+                    f"{self.btoks(r.get('tty', ''), f'step {i} terminal-device output')} "
+                    f"{self.btoks(r['out'], f'step {i} output')})")
         if op == "new":
             a = r["alloc"]
             if a[0] == "raised":
@@ -511,13 +611,27 @@ def describe(case, upto=None):
             parts.append(f"del {st['slot']}")
         elif st["op"] == "api":
             parts.append(f"clear_images({','.join(st.get('slots', []))}{',' if st.get('slots') else ''}now={bool(st.get('now'))})")
+        elif st["op"] == "start":
+            parts.append("start(alternate_buffer=%s)" % bool(st.get("alt", True)))
+        elif st["op"] == "pre":
+            def item(it):
+                if it[0] == "raw":
+                    return f"kitty placement {it[3]}x{it[4]} z={it[5]} at row {it[1]} col {it[2]}"
+                if it[0] == "image":
+                    return f"print({it[1]} image#{it[2]} width={it[3]} :{it[4]})"
+                if it[0] == "alt":
+                    return "enter alternate buffer" if it[1] else "leave alternate buffer"
+                return "text"
+            parts.append("earlier output on the terminal [" + ", ".join(item(it) for it in st.get("items", [])) + "]")
+        elif st["op"] == "newscreen":
+            parts.append("new UrwidImageScreen object")
         else:
             parts.append(st["op"])
     return s + " ; ".join(parts)
 
 
 HEADER = ("From Coq Require Import List ZArith Bool.\nImport ListNotations.\n"
-          "From TI Require Import lib.Term model.Screen model.ScreenTie.\nOpen Scope nat_scope.\n")
+          "From TI Require Import lib.Term model.Screen model.ScreenSession model.ScreenTie.\nOpen Scope nat_scope.\n")
 
 
 def evaluate(cases, errors, prefix="c18"):
@@ -573,9 +687,17 @@ def shrink_candidates(case, fail_step):
         out.append(dict(case, steps=steps[: cut + 1]))
     base = steps[: cut + 1] if 0 <= cut < len(steps) else steps
     for i in range(len(base)):
-        if base[i]["op"] == "start" and i == 0:
-            continue
         out.append(dict(case, steps=base[:i] + base[i + 1:]))
+        # a whole stop ... start stretch (one session boundary) at once
+        if base[i]["op"] == "stop":
+            for j in range(i + 1, len(base)):
+                if base[j]["op"] == "start":
+                    out.append(dict(case, steps=base[:i] + base[j + 1:]))
+                    break
+        if base[i]["op"] == "pre" and len(base[i]["items"]) > 1:
+            for k in range(len(base[i]["items"])):
+                out.append(dict(case, steps=base[:i] + [dict(base[i], items=base[i]["items"][:k] + base[i]["items"][k + 1:])]
+                                + base[i + 1:]))
     for i, st in enumerate(base):
         if st["op"] in ("draw", "draw_bad"):
             for sub in sub_layouts(st["layout"]):
@@ -614,14 +736,47 @@ def sub_layouts(L):
     return subs
 
 
+def valid_session(case):
+    """start only a stopped screen, stop / draw / clear only a started one; other programs write
+    to the terminal, and the screen object is replaced, only while the screen is stopped"""
+    started = False
+    for st in case["steps"]:
+        op = st["op"]
+        if op == "start":
+            if started:
+                return False
+            started = True
+        elif op == "stop":
+            if not started:
+                return False
+            started = False
+        elif op in ("pre", "newscreen"):
+            if started:
+                return False
+        elif op in ("draw", "draw_bad", "redraw", "clear", "api"):
+            if not started:
+                return False
+    return True
+
+
 def in_domain(case):
     """the public clear_images() is exercised within the domain of no_ghosts: at most one call
     between two redraws (the disguise has three states: the count hypothesis), and the next
     redraw is one of a NEW canvas object (urwid returns early, writing nothing, when it is
     handed the very canvas object it drew last)"""
+    if not valid_session(case):
+        return False
     pending = 0
+    inline = False
+    last = None          # the layout drawn last, when its canvas may be handed to the screen again
     for st in case["steps"]:
         op = st["op"]
+        if op == "start":
+            inline = not st.get("alt", True)
+        if op == "draw" and not inline and st["layout"][0] == "img" and st["layout"] == last:
+            # the image widget itself as the top-most widget: urwid's canvas cache returns the very canvas
+            # object drawn last, so this is the "redraw" of the same canvas object
+            op = "redraw"
         if op == "api":
             pending += 1
             if pending > 1:
@@ -631,6 +786,10 @@ def in_domain(case):
                 return False
         elif op in ("draw", "clear", "stop", "start"):
             pending = 0
+        if op in ("draw", "draw_bad"):
+            last = st["layout"]
+        elif op in ("new", "del", "newscreen"):
+            last = None if op == "newscreen" else last
         # draw_bad: the inner draw raises before writing anything: the call stays pending
     return True
 
@@ -662,7 +821,10 @@ def shrink(case, verdict, errors, rounds=4, t_end=None):
 
 def run(ctx):
     errors, mismatches, failures, raw_failing = [], [], [], []
-    hist = {"terminal": {}, "public_clear_images_calls": {}, "widget_classes": {}, "sessions_mixing_classes": 0, "steps_per_session": {}, "op": {}, "layout_nodes": {}, "widget_kinds": {},
+    hist = {"terminal": {}, "start_mode": {"alternate buffer": 0, "inline (alternate_buffer=False)": 0},
+            "starts_on_a_terminal_holding_placements": {"alternate buffer": 0, "inline (alternate_buffer=False)": 0},
+            "sessions_with_both_modes": 0, "new_screen_objects": 0, "earlier_output_items": {},
+            "public_clear_images_calls": {}, "widget_classes": {}, "sessions_mixing_classes": 0, "steps_per_session": {}, "op": {}, "layout_nodes": {}, "widget_kinds": {},
             "verdict": {}, "views_on_screen": {}, "deletes": {"all": 0, "by_z": 0, "cursor": 0},
             "redraws_with_vanished_views": 0, "non_composite_canvases": 0, "image_lines_in_canvases": 0,
             "image_lines_written": 0, "z_freed": 0, "z_reused": 0, "z_exhausted": 0}
@@ -699,8 +861,25 @@ def run(ctx):
             hist["widget_classes"][nm] = hist["widget_classes"].get(nm, 0) + 1
         if len({sp.get("cls", 0) for sp in specs if sp["kind"] == "kitty"}) > 1:
             hist["sessions_mixing_classes"] += 1
+        dirty_term = False      # something placed images on the terminal since the last stop / the beginning
+        modes = set()
         for st in c["steps"]:
             hist["op"][st["op"]] = hist["op"].get(st["op"], 0) + 1
+            if st["op"] == "pre":
+                for it in st.get("items", []):
+                    key = it[0] if it[0] != "image" else f"image:{it[1]}:{'WHOLE' if it[4].endswith('W') else 'LINES'}"
+                    hist["earlier_output_items"][key] = hist["earlier_output_items"].get(key, 0) + 1
+                    dirty_term = dirty_term or it[0] in ("raw", "image")
+            elif st["op"] == "start":
+                mode = "alternate buffer" if st.get("alt", True) else "inline (alternate_buffer=False)"
+                modes.add(mode)
+                hist["start_mode"][mode] += 1
+                if dirty_term:
+                    hist["starts_on_a_terminal_holding_placements"][mode] += 1
+            elif st["op"] == "stop":
+                dirty_term = False
+            elif st["op"] == "newscreen":
+                hist["new_screen_objects"] += 1
             if st["op"] == "api":
                 key = ("all" if not st.get("slots") else f"{len(st['slots'])} widget(s)") + (", now" if st.get("now") else ", queued")
                 hist["public_clear_images_calls"][key] = hist["public_clear_images_calls"].get(key, 0) + 1
@@ -708,6 +887,8 @@ def run(ctx):
                 for node in ("pile", "cols", "overlay", "listbox", "linebox", "filler", "padding", "boxadapter", "img", "fill"):
                     if f'["{node}"' in json.dumps(st["layout"]):
                         hist["layout_nodes"][node] = hist["layout_nodes"].get(node, 0) + 1
+        if len(modes) > 1:
+            hist["sessions_with_both_modes"] += 1
         prev_views = None
         prev_free = set()
         nontrivial = False
@@ -778,7 +959,8 @@ def run(ctx):
         errors.append(f"{invalid} of {len(cases)} generated sessions were rejected by urwid (generator too loose)")
     samples = [describe(c) for c in cases[:2]] + [describe(c) for c in cases[len(corpus()):len(corpus()) + 3]]
     return {
-        "corr_name": "sessions of a real UrwidImageScreen on a buffer; output lexed and executed on the placement-level "
+        "corr_name": "sessions of a real UrwidImageScreen on a buffer (started with / without the alternate buffer, on terminals "
+                     "already holding placements); output lexed and executed on the two-buffer placement-level "
                      "terminal in Coq vs. model (deletes, _ti_image_cviews, disguise, allocator) and vs. the canvas just drawn",
         "evaluations": sum(1 for v in verdicts if v and isinstance(v[0], int)),
         "distinct_nontrivial": len(distinct),
@@ -786,13 +968,19 @@ def run(ctx):
                 "SolidFill / being the image widget itself, one widget three times in a scrolled list box / side by side, "
                 "z-index reuse after collection, widgets of UrwidImage and of its subclasses alive together with interleaved creation / "
                 "collection, inner draw raising, stop/start, kitty+iterm2 on Konsole, z-index exhaustion, "
-                "kitty unsupported) x terminal identity, then generated sessions: 1-4 widgets of kinds kitty / iterm2 / block, each an instance of UrwidImage, of a subclass, of a sub-subclass or of a second "
+                "kitty unsupported; the screen started WITHOUT the alternate buffer on a terminal that already shows images "
+                "(raw kitty placements, images printed by the library with the LINES / WHOLE method, iterm2 images on Konsole), "
+                "clear()+redraw and a moved overlay there, then a session with the alternate buffer after more foreign output, "
+                "then inline again; a new screen object between sessions; another program's alternate buffer) x terminal "
+                "identity, then generated sessions: optional earlier output on the terminal (1-3 of: kitty placements anywhere "
+                "on / below the screen area with z-index 0 / 1 / -1 / 2 / 7 / 2^31-1, printed kitty / iterm2 images, text), "
+                "start(alternate_buffer = True 60% / False 40%), 1-4 widgets of kinds kitty / iterm2 / block, each an instance of UrwidImage, of a subclass, of a sub-subclass or of a second "
                 "subclass (mixed in one session) "
                 "(6 images, two of them uniform), 16x6..30x12 screens, a random box layout of depth <= 3 (Pile, Columns, "
                 "Overlay, ListBox, LineBox, Filler, Padding, BoxAdapter, image widgets in box and flow position, the same "
                 "widget possibly several times) followed by 3-10 operations: a mutation of the layout (overlay moved / "
                 "resized / its top replaced, list box scrolled, item inserted / removed, image swapped), a new layout, redraw "
-                "of the same canvas, the PUBLIC clear_images() (all images or one / two widgets, now=True or queued) followed by a redraw of the unchanged or a changed layout, clear()+redraw, stop/start, a widget replaced by a new one, a widget dropped and "
+                "of the same canvas, the PUBLIC clear_images() (all images or one / two widgets, now=True or queued) followed by a redraw of the unchanged or a changed layout, clear()+redraw, stop [+ more foreign output] [+ new screen object] + start in either mode, a widget replaced by a new one, a widget dropped and "
                 "collected, a redraw whose inner draw raises.  Non-trivial: distinct sessions judged 0 in which at least one "
                 "redraw made image views vanish.",
         "samples": samples,
@@ -813,13 +1001,21 @@ def run(ctx):
             "live kitty widgets hold distinct non-zero z-indexes (proved: z_distinct_in_range), image lines of one canvas lie on "
             "the screen and do not overlap, every image line is one row high (LINES render method, the default, required by the "
             "documentation wherever a canvas may be trimmed)",
+            "(T3) graphics placements belong to the screen buffer they were made on: CSI ?1049h shows a fresh alternate "
+            "buffer, CSI ?1049l the main buffer again with its placements; every other command acts on the visible buffer "
+            "(model/ScreenSession.v bstep); 'cleared on start / clear' is judged on the visible buffer, 'cleared on stop' on the "
+            "buffer the screen ran on",
+            "(U3) without the alternate buffer urwid addresses rows relative to the row of the cursor at start(); its "
+            "bookkeeping of that row relies on the canvas carrying a cursor, so the canvases of inline sessions carry one at "
+            "(0, 0) (harness/impl/impl_c18.py WithCursor); the session theorems are stated with that row as row 0",
+            "other programs write to the terminal, and the screen object is replaced, only while the screen is stopped",
             "KittyImage / ITerm2Image support is as the test-suite stubs say (GraphicsImage._supported = True; "
             "ITerm2Image._TERM set as is_supported() would on konsole / wezterm)",
             "the theorems are about the code AFTER pending_fixes/C18_non_composite_canvas.diff and "
             "C18_kitty_widget_listed_per_view.diff",
         ],
         "trusted": ["harness/c18lex.py (urwid output -> placement-level tokens, fail-closed)",
-                    "harness/tx/tx_screen.py (Python ast of draw_screen -> prog, fail-closed)",
+                    "harness/tx/tx_screen.py (Python ast of draw_screen -> prog; of _start / _stop / clear -> call skeletons; fail-closed)",
                     "harness/impl/impl_c18.py (drives urwid widgets and the screen; reads shards with urwid's shard_body)"],
         "extra": {"failing_sessions_total": total_failing, "generator_invalid": invalid,
                   "other_failing_sessions_not_shrunk": others[:12]},
